@@ -200,7 +200,113 @@ def extract(repo: Path) -> dict:
     facts["perm_table"] = evaluate_table(repo)
     facts["safe_names"], facts["safe_call1"] = evaluate_function_table(repo)
     facts["reg_table"] = evaluate_registration_table(repo)
+    facts["name_table"] = evaluate_name_table(repo)
     return facts
+
+
+NAME_BASE = "Net_x"
+
+
+def name_spellings():
+    """the registered name and its look-alikes: other case (upper / lower / swapped), trailing / leading blank, first
+    letter full-width (NFKC-equivalent), a composed accent and the same accent decomposed (NFC / NFD of each other),
+    qualified the way some providers echo schema names, hyphen for underscore"""
+    b = NAME_BASE
+    return [b, b.upper(), b.lower(), b.swapcase(), b + " ", " " + b, chr(ord(b[0]) + 0xFEE0) + b[1:], b + "\u00e9",
+            b + "e\u0301", "functions." + b, b.replace("_", "-")]
+
+
+def python_callee(text):
+    """what PYTHON's parser reads as the callee of `text` (no library code involved): ('name', id) / ('notname',) /
+    ('notcall',)"""
+    try:
+        body = ast.parse(text, mode="eval").body
+    except Exception:
+        return ("notcall",)
+    if not isinstance(body, ast.Call):
+        return ("notcall",)
+    return ("name", body.func.id) if isinstance(body.func, ast.Name) else ("notname",)
+
+
+def evaluate_name_table(repo: Path):
+    """Evaluate how the REAL entry points resolve a requested tool name, on a complete finite domain: one tool is
+    registered under spelling i of a name and requested under spelling j (11 x 11 spellings that differ in case, blanks,
+    compatibility / decomposed forms, qualification, - for _), through execute_tool_call, metabolize forced OXIDATIVE,
+    metabolize with the auto-detected pathway (the detection is recorded) and the tool loop - on an unrestricted engine
+    (did the body run?) and, with the tool requiring Capability.NET, under the empty ceiling (did the body run on ANY of
+    the four?).  -> rows or None (fail closed)."""
+    import sys
+    import warnings
+    warnings.filterwarnings("ignore")
+    root = str(repo)
+    if root not in sys.path:
+        sys.path.insert(0, root)
+    try:
+        from operon_ai.organelles.mitochondria import Mitochondria, MetabolicPathway
+        from operon_ai.organelles.nucleus import Nucleus
+        from operon_ai.core.types import Capability
+        from operon_ai.providers import LLMResponse, ToolCall
+        import operon_ai
+        if not str(Path(operon_ai.__file__).resolve()).startswith(root):
+            return None
+        rows = []
+        sp = name_spellings()
+        for reg in sp:
+            for req in sp:
+                ran = []
+
+                class T:
+                    description = "t"
+                    parameters_schema = {"type": "object", "properties": {}}
+
+                    def execute(self, *a, **k):
+                        ran.append(1)
+                        return 1
+
+                class Pushy:
+                    name = "pushy"
+
+                    def __init__(self):
+                        self.n = 0
+
+                    def is_available(self):
+                        return True
+
+                    def complete(self, prompt, config=None):
+                        return LLMResponse(content="ok", model="m", tokens_used=1, latency_ms=0.0)
+
+                    def complete_with_tools(self, prompt, tools=None, config=None):
+                        self.n += 1
+                        return self.complete(prompt), ([ToolCall(id="c", name=req, arguments={})] if self.n == 1 else [])
+
+                def engine(restricted):
+                    ran.clear()
+                    t = T()
+                    t.name = reg
+                    t.required_capabilities = {Capability.NET}
+                    m = Mitochondria(allowed_capabilities=set() if restricted else None, silent=True)
+                    m.engulf_tool(t)
+                    return m
+
+                def four(restricted):
+                    out = []
+                    engine(restricted).execute_tool_call(ToolCall(id="c", name=req, arguments={}))
+                    out.append(bool(ran))
+                    engine(restricted).metabolize(f"{req}()", MetabolicPathway.OXIDATIVE)
+                    out.append(bool(ran))
+                    r3 = engine(restricted).metabolize(f"{req}()")
+                    out.append(r3.pathway == MetabolicPathway.OXIDATIVE)
+                    out.append(bool(ran))
+                    Nucleus(provider=Pushy()).transcribe_with_tools("p", engine(restricted))
+                    out.append(bool(ran))
+                    return out
+                call, met, auto_ox, auto, loop = four(False)
+                d = four(True)
+                rows.append((reg, req, python_callee(f"{req}()"), call, met, auto_ox, auto, loop,
+                             bool(d[0] or d[1] or d[3] or d[4])))
+        return rows
+    except Exception:
+        return None
 
 
 REG_STYLES = ["ctor", "simple", "function", "object"]     # tools=[SimpleTool], engulf_tool(SimpleTool), register_function, engulf_tool(object)
@@ -413,6 +519,15 @@ def render(facts: dict) -> str:
     regtable = "none" if rrows is None else "some [\n  " + ",\n  ".join(
         f"({a}, {c}, {b(sm)}, [{', '.join(map(str, d1))}], [{', '.join(map(str, d2))}], {b(h)}, {b(r)})"
         for (a, c, sm, d1, d2, h, r) in rrows) + "]"
+    def lstr(x):
+        return '"' + "".join(c if 32 <= ord(c) < 127 and c not in '"\\' else "\\u%04x" % ord(c) for c in x) + '"'
+
+    def lcallee(c):
+        return f"(.name {lstr(c[1])})" if c[0] == "name" else "." + {"notname": "notName", "notcall": "notCall"}[c[0]]
+    nrows = facts.get("name_table")
+    nametable = "none" if nrows is None else "some [\n  " + ",\n  ".join(
+        f"⟨{lstr(rg)}, {lstr(rq)}, {lcallee(pc)}, {b(c1)}, {b(m1)}, {b(ax)}, {b(a1)}, {b(l1)}, {b(dn)}⟩"
+        for (rg, rq, pc, c1, m1, ax, a1, l1, dn) in nrows) + "]"
     return f"""/- GENERATED by harness/vf/extract/e1_caps.py from operon_ai/organelles/mitochondria.py — do not edit. -/
 import Operon.Model.MitoTools
 namespace Operon.Gen.MitoCaps
@@ -445,6 +560,14 @@ def permTable : Option (List PermRow) := {table}
     2 = `register_function`, 3 = `engulf_tool(object)`: does the registry hold the SECOND registration, and did
     `execute_tool_call` run a body?  `none` = the code could not be evaluated. -/
 def regTable : Option (List (Nat × Nat × Bool × List Cap × List Cap × Bool × Bool)) := {regtable}
+
+/-- how the REAL entry points resolve a requested tool name: one tool registered under spelling `reg` of a name and
+    requested under spelling `req` (11 x 11 look-alike spellings: case, blanks, full-width, NFC/NFD, qualified, - for _);
+    `parsed` = what Python's parser reads as the callee of the expression text `<req>()`; did the body run through
+    `execute_tool_call`, `metabolize(.., OXIDATIVE)`, `metabolize(..)` (with the pathway it detected), the tool loop on an
+    unrestricted engine; and did it run on any of them when it requires NET under the empty ceiling?
+    `none` = the code could not be evaluated. -/
+def nameTable : Option (List NameRow) := {nametable}
 
 /-- keys of the evaluator's function table `SAFE_FUNCTIONS` (a call of such a name evaluates its arguments on the
     math/logic pathways), read off the real class -/
